@@ -225,6 +225,18 @@ fn gen_pool(r: &mut Rng) -> Pool {
     if p.mains.len() > 1 {
         p.mains[1].push_str("{% capture q %}{% include 'p2' %}{% endcapture %}{{ q | size }}");
     }
+    // one shared tag whose partial name comes from the data and differs between the data objects
+    // (per-tag caches of "the" resolved partial would be shared by overlapping renders)
+    p.partials.push(("dyn0".into(), "<dyn0:{{ b }}>".into()));
+    p.partials.push(("dyn1".into(), "<dyn1:{{ c }}>".into()));
+    for m in p.mains.iter_mut() {
+        *m = format!("{{% include dynp %}}{{% render dynp, b: b, c: c %}}{m}");
+    }
+    for (k, d) in p.datas.iter_mut().enumerate() {
+        if let crate::val::RVal::Object(kv) = d {
+            kv.push(("dynp".into(), crate::val::RVal::Str(format!("dyn{}", k % 2))));
+        }
+    }
     if p.mains.len() > 2 {
         let tail = if r.chance(1, 2) { "{% include 'pbroken' %}" } else { "{% render 'missing' %}" };
         p.mains[2].push_str(tail);
